@@ -42,6 +42,22 @@ func TestD17IntersectBounded(t *testing.T) {
 	}
 }
 
+// D25: a segment along a meridian has azimuths of exactly 0 or 180 at the crossing, which share a
+// sign bit, so the sign comparison took a crossing beyond the segment's end for one inside it.
+func TestD25MeridionalSegment(t *testing.T) {
+	g := geo.NewGnomonic(geodesic.WGS84)
+	// (10,10)->(11,10) and a short east-west segment at latitude 12: the geodesics cross a degree beyond the first segment
+	if lat, lon, err := g.Intersect(10, 10, 11, 10, 12, 9.9, 12, 10.1); err == nil {
+		t.Fatalf("crossing beyond the end of a meridional segment: no error (%v, %v)", lat, lon)
+	}
+	if _, _, err := g.Intersect(10, 10, 11, 10, 9, 9.9, 9, 10.1); err == nil {
+		t.Fatal("crossing before the start of a meridional segment: no error")
+	}
+	if _, _, err := g.Intersect(11, 10, 10, 10, 10.5, 9.9, 10.5, 10.1); err != nil {
+		t.Fatalf("crossing inside a southward meridional segment: %v", err)
+	}
+}
+
 // D20: --latitude & co never overrode the config file's Start table.
 func TestD20StartFlags(t *testing.T) {
 	dir := t.TempDir()
